@@ -88,14 +88,17 @@ def gen_small(rng, kinds):
 
 
 def run(tier):
-    ctx = Ctx("C02", tier)
+    # (1) correspondence of the scheduling points: the theorems of Props/C02.v are about the placement of Switch nodes in the
+    #     code trees; every program below is run on the real runtime and on the model under the same scripted schedule, and
+    #     every decision (where it happens, what is offered) is compared
+    from progcheck import run_prog_check
+    res = run_prog_check("C02", PROPS, tier, ["c08"], n_quick=2000, n_thorough=40000,
+                         focus=["atomic", "mutex", "rwlock", "sem", "acq", "chan", "condvar", "barrier", "park"], focus_n=(3000, 60000),
+                         scenarios=(600, 12000))
+    if isinstance(res, int):
+        return res
+    ctx, _cases, _mo, _io = res
     rng = ctx.rng
-    ctx.gen_params()
-    for pf in PROPS:
-        if os.path.exists(os.path.join(os.path.dirname(__file__), "..", "coq", pf)):
-            ctx.proof_gate(pf)
-    if not (ctx.build_model() and ctx.build_harness()):
-        return ctx.finish()
     known = known_ids("C02")
     n = 500 if tier == "quick" else 6000
     progs = []
@@ -147,7 +150,7 @@ def run(tier):
                 ctx.violation({"layer": "prog", "cases": [c], "impossible_outcomes": extra[:5],
                                "why": "the runtime produced outcome(s) that no sequentially consistent interleaving allows (specification interpreter tools/spec.py)"})
     ctx.cov["c02_stats"] = stats
-    ctx.cov["rule"] = ("small programs (main + 1-2 children, 1-4 operations each over atomics, Mutex, RwLock, unfair semaphores, unbounded channels with endpoint drops, Once) ; the real runtime's whole choice tree is enumerated "
+    ctx.cov["rule"] = ctx.cov.get("rule", "") + " EXPLORATION: " + ("small programs (main + 1-2 children, 1-4 operations each over atomics, Mutex, RwLock, unfair semaphores, unbounded channels with endpoint drops, Once) ; the real runtime's whole choice tree is enumerated "
                        "with DfsScheduler (complete enumerations only) and the set of outcomes (per-task results + termination) compared with the set computed by an independent interpreter in which every visible operation "
                        "is one atomic step. non-trivial = programs with more than one SC outcome")
     ctx.sample({"case": cases[0], "impl": io[0][:300]})
